@@ -1,0 +1,65 @@
+//go:build verif
+// +build verif
+
+package decimal
+
+import "sync"
+
+// Pool instrumentation (-tags verif): buffers handed out by getDec are filled with an invalid
+// word pattern, buffers given back by putDec are overwritten with it, and the set of
+// outstanding buffers is tracked so that a double put or a put of a foreign buffer is reported.
+
+const verifPoisonWord = Word(0xDEADBEEFDEADBEEF) // >= _DB: never a valid decimal word
+
+var (
+	verifPoison      bool
+	verifMu          sync.Mutex
+	verifOutstanding = map[*dec]bool{}
+	verifPoolErrors  []string
+)
+
+// VerifPoolPoison switches pool poisoning on or off and clears the error list.
+func VerifPoolPoison(on bool) {
+	verifMu.Lock()
+	verifPoison = on
+	verifOutstanding = map[*dec]bool{}
+	verifPoolErrors = nil
+	verifMu.Unlock()
+}
+
+// VerifPoolErrors returns the protocol violations observed since the last VerifPoolPoison call
+// and the number of buffers still outstanding.
+func VerifPoolErrors() ([]string, int) {
+	verifMu.Lock()
+	defer verifMu.Unlock()
+	return append([]string(nil), verifPoolErrors...), len(verifOutstanding)
+}
+
+func verifGet(z *dec) {
+	if !verifPoison {
+		return
+	}
+	full := (*z)[:cap(*z)]
+	for i := range full {
+		full[i] = verifPoisonWord
+	}
+	verifMu.Lock()
+	verifOutstanding[z] = true
+	verifMu.Unlock()
+}
+
+func verifPut(x *dec) {
+	if !verifPoison {
+		return
+	}
+	verifMu.Lock()
+	if !verifOutstanding[x] {
+		verifPoolErrors = append(verifPoolErrors, "putDec of a buffer that is not outstanding")
+	}
+	delete(verifOutstanding, x)
+	verifMu.Unlock()
+	full := (*x)[:cap(*x)]
+	for i := range full {
+		full[i] = verifPoisonWord
+	}
+}
